@@ -303,6 +303,34 @@ func runC01(c *Ctx) {
 		r.Check("R01.3", un, "the text computed by "+FuncName(helper)+" is assigned on every path", helperCall.Pos(), ok, why)
 	}
 	r.Floor("R01.2", "text values produced by dispatch arms", nstores, 8)
+	// the text an arm produced is final: Update stores the text only inside a dispatch arm (or as the result of the
+	// helper the dispatch continues in); a later rewrite (trimming, normalising line ends, expanding tabs) changes
+	// what every renderer prints
+	{
+		inArm := func(st *ssa.Store) bool {
+			for _, a := range arms {
+				if a.Fn == update && a.Entry != nil && a.Entry.Dominates(st.Block()) {
+					return true
+				}
+			}
+			return false
+		}
+		n := 0
+		for _, fs := range c.StoresTo(str) {
+			if fs.Fn != update || fs.Base != ssa.Value(recv) {
+				continue
+			}
+			if inArm(fs.St) || (helper != nil && fs.St.Val == ssa.Value(helperCall)) {
+				continue
+			}
+			// the documented empty-text bookkeeping may store the constant ""
+			if s0, isK := constString(fs.St.Val); isK && s0 == "" {
+				continue
+			}
+			n++
+			r.Check("R01.2", un, fmt.Sprintf("text store #%d outside the dispatch arms", n), fs.St.Pos(), false, "the text computed by the arm is replaced afterwards by "+fs.St.Val.String())
+		}
+	}
 
 	// ---- R01.4 path enumeration
 	c01Emptiness(c, update, recv, str, empty)
@@ -573,9 +601,85 @@ func armSourceOK(a tsArm, v ssa.Value, raw, str *types.Var) (bool, string) {
 			}
 			return false, "Cell arm reads the text of something other than the nested cell"
 		}
-		return true, "extra concrete arm (not in the documented list): not judged"
+		// an arm the documentation does not list must print exactly what the catch-all does (fmt's %v): either
+		// it calls fmt the same way, or it is one of the strconv spellings that fmt itself uses for that kind
+		if call, ok := v.(*ssa.Call); ok {
+			if f := call.Call.StaticCallee(); f != nil {
+				switch funcPkgPath(f) + "." + f.Name() {
+				case "fmt.Sprintf":
+					if fs, okF := constString(call.Call.Args[0]); okF && fs == "%v" {
+						return true, ""
+					}
+				case "fmt.Sprint":
+					return true, ""
+				}
+				if ok2, why := strconvEqualsV(call, a); ok2 {
+					return true, ""
+				} else if why != "" {
+					return false, why
+				}
+			}
+		}
+		return false, "an arm for " + shortType(a.Type) + ", which the documentation does not list, formats the item in its own way; only fmt's %v (or the strconv call fmt uses for that kind, with the right bit size) is the documented text"
 	}
 	return false, "?"
+}
+
+// strconvEqualsV: the strconv call prints what fmt's %v prints for a value of the arm's (basic) type.
+func strconvEqualsV(call *ssa.Call, a tsArm) (bool, string) {
+	b, ok := a.Type.Underlying().(*types.Basic)
+	if !ok {
+		return false, ""
+	}
+	f := call.Call.StaticCallee()
+	if funcPkgPath(f) != "strconv" {
+		return false, ""
+	}
+	arg0 := call.Call.Args[0]
+	if cv, isCv := arg0.(*ssa.Convert); isCv {
+		arg0 = cv.X
+	}
+	if arg0 != a.Val {
+		return false, "the strconv call formats something other than the item"
+	}
+	konst := func(i int) (int64, bool) {
+		if i >= len(call.Call.Args) {
+			return 0, false
+		}
+		return constInt(call.Call.Args[i])
+	}
+	info := b.Info()
+	switch f.Name() {
+	case "Itoa":
+		return info&types.IsInteger != 0 && info&types.IsUnsigned == 0, ""
+	case "FormatInt":
+		base, okB := konst(1)
+		if info&types.IsInteger != 0 && info&types.IsUnsigned == 0 && okB && base == 10 {
+			return true, ""
+		}
+		return false, "FormatInt with a base other than 10, or on an unsigned kind"
+	case "FormatUint":
+		base, okB := konst(1)
+		if info&types.IsUnsigned != 0 && okB && base == 10 && b.Kind() != types.Uint8 && b.Kind() != types.Uintptr {
+			return true, ""
+		}
+		return false, "FormatUint with a base other than 10, or on a kind fmt prints differently"
+	case "FormatBool":
+		return b.Kind() == types.Bool, ""
+	case "FormatFloat":
+		fm, ok1 := konst(1)
+		prec, ok2 := konst(2)
+		bits, ok3 := konst(3)
+		want := int64(64)
+		if b.Kind() == types.Float32 {
+			want = 32
+		}
+		if info&types.IsFloat != 0 && ok1 && fm == 'g' && ok2 && prec == -1 && ok3 && bits == want {
+			return true, ""
+		}
+		return false, fmt.Sprintf("FormatFloat must be ('g', -1, %d) for %s to agree with %%v (shortest representation at the value's own precision)", want, b.Name())
+	}
+	return false, ""
 }
 
 func isStringType(t types.Type) bool {
